@@ -923,13 +923,13 @@ def expected_opts(src):
 
 def is_enclosing_for_target(src, module_line, var):
     """classifier of the known finding: `var` is a target of a `for` loop that lexically encloses the
-    statement at module_line (the for header kills its target on the loop-exit edge, so liveness does
-    not see the use after the loop)"""
+    statement at module_line or starts after it (the for header kills its target also on the loop-exit /
+    zero-iteration edge, so liveness does not see the use after that loop)"""
     if module_line is None:
         return False
     line = module_line - SHIFT
     for n in ast.walk(ast.parse(src)):
-        if isinstance(n, ast.For) and n.lineno < line <= n.end_lineno:
+        if isinstance(n, ast.For) and (n.lineno < line <= n.end_lineno or n.lineno > line):
             if var in {x.id for x in ast.walk(n.target) if isinstance(x, ast.Name)}:
                 return True
     return False
